@@ -35,3 +35,18 @@ add("C13", "step_not_last, step_last(+fields), next_obs_step/reset, fresh_keys (
            "key-monotone environment) proved over an arbitrary Env; real AutoResetWrapper on all 22 environment classes, both flags, multi-episode, jit/scan/vmap", _wnote)
 add("C14", "vmap_step_get/reset_get and VmapAutoReset = Vmap(AutoReset) for every batch proved over an arbitrary Env; both real stacks on identical "
            "batches with staggered terminations, index-wise vs single-instance execution, render uses element 0", _wnote)
+
+add("C03", "the final-timestep expression of every environment class is translated from the source (AST) into Gen/Protocol.lean; entry_protocol proves, "
+           "for every recognised expression and ALL done flags / rewards / observations (hence any state, also after LAST), that the emitted timestep obeys the "
+           "protocol; lbf_truncation_exact states the documented exception; ResetOK/StepOK evaluated on every real timestep incl. 3 post-terminal steps",
+    "Trusted: Lean kernel; the AST translator (harness/translators.py gen_protocol) and the semantics given to termination/transition/truncation "
+    "(transliteration of jumanji/types.py); Connector's explicit MID discount is assumed in [0,1] and not all-zero unless done (checked by the search).",
+    technique="Lean 4 theorems over source-generated step expressions (translator) + Lean-predicate search on real timesteps")
+add("C11", "constructor wiring `self.time_limit = …` and the `done` comparison translated from the source (AST) into Gen/TimeLimit.lean; "
+           "wiring_honours_argument (Python `or` truthiness modelled) for every positive limit, ends_by_limit / ends_exactly_at_limit (counting argument), "
+           "per-environment progress/horizon theorems; first-LAST index measured for limits {1,2,3,7,default,None} on every class that takes a limit",
+    "Trusted: Lean kernel; AST translator (gen_timelimit); that the compared counter is the incremented one is established by the search and, for modelled "
+    "environments, by their L1 models.", technique="Lean 4 theorems over source-generated wiring/comparison + first-LAST search on real environments")
+add("C15", "adapter state machines over an arbitrary Env and free keys: reset_uses_schedule (i-th reset after seeding uses left(right^i(seed))), reseed_reproducible, "
+           "step_relays (terminated iff discount = 0, truncated iff LAST), multiToSingle_only_aggregates; real Gym/dm_env/MultiToSingle adapters on every catalogue "
+           "environment vs the native API driven with the key terms the model prescribes (evaluated with the real jax.random.split)", _wnote)
